@@ -30,12 +30,12 @@ func (r *RequireModule) resolve(modpath string) (module *js.Object, err error) {
 
 	p := r.resolvePath(start, modpath)
 	if isFileOrDirectoryPath(modpath) {
-		if module = r.modules[p]; module != nil {
+		if module = r.resolved[p]; module != nil {
 			return
 		}
 		module, err = r.loadAsFileOrDirectory(p)
 		if err == nil && module != nil {
-			r.modules[p] = module
+			r.resolved[p] = module
 		}
 	} else {
 		module, err = r.loadNative(modpath)
@@ -48,12 +48,13 @@ func (r *RequireModule) resolve(modpath string) (module *js.Object, err error) {
 				return
 			}
 		}
-		if module = r.nodeModules[p]; module != nil {
+		key := nodeModuleKey{start, modpath}
+		if module = r.nodeModules[key]; module != nil {
 			return
 		}
 		module, err = r.loadNodeModules(modpath, start)
 		if err == nil && module != nil {
-			r.nodeModules[p] = module
+			r.nodeModules[key] = module
 		}
 	}
 
@@ -64,7 +65,7 @@ func (r *RequireModule) resolve(modpath string) (module *js.Object, err error) {
 }
 
 func (r *RequireModule) loadNative(path string) (*js.Object, error) {
-	module := r.modules[path]
+	module := r.nativeModules[path]
 	if module != nil {
 		return module, nil
 	}
@@ -89,13 +90,17 @@ func (r *RequireModule) loadNative(path string) (*js.Object, error) {
 
 	if ldr != nil {
 		module = r.createModuleObject()
-		r.modules[path] = module
+		r.nativeModules[path] = module
 		if isBuiltIn {
 			if withPrefix {
-				r.modules[path[len(NodePrefix):]] = module
+				// the unprefixed name means this core module only if no native module overrides it
+				name := path[len(NodePrefix):]
+				if r.r.native[name] == nil && native[name] == nil {
+					r.nativeModules[name] = module
+				}
 			} else {
 				if !strings.HasPrefix(path, NodePrefix) {
-					r.modules[NodePrefix+path] = module
+					r.nativeModules[NodePrefix+path] = module
 				}
 			}
 		}
